@@ -433,23 +433,52 @@ func c20Bubble(t *testing.T, budget time.Duration, fn func() *verifkit.Failure) 
 			inner = fn()
 		})
 	}()
-	select {
-	case f := <-done:
-		return f
-	case <-time.After(budget):
+	// A goroutine of the code under test parked on a lock after the budget (and still there five seconds later) is a
+	// hang; a scenario that is merely slow on a saturated machine gets ten times the budget and is then given up as
+	// inconclusive, never reported.
+	lockWaiters := func() (string, []string) {
 		buf := make([]byte, 4<<20)
 		buf = buf[:runtime.Stack(buf, true)]
 		var stuck []string
 		for _, g := range strings.Split(string(buf), "\n\n") {
-			if strings.Contains(g, "synctest") && (strings.Contains(g, "sync.(*Mutex)") || strings.Contains(g, "sync.(*RWMutex)") || strings.Contains(g, "semacquire")) {
+			if !strings.Contains(g, "synctest") || strings.Contains(g, "runtime.Stack(") {
+				continue
+			}
+			if !(strings.Contains(g, "sync.(*Mutex)") || strings.Contains(g, "sync.(*RWMutex)") || strings.Contains(g, "sync.(*WaitGroup)")) {
+				continue
+			}
+			if strings.Contains(g, "/pkg/server.(") || strings.Contains(g, "/internal/pkg/table.(") {
 				stuck = append(stuck, g)
 			}
 		}
-		if os.Getenv("VERIF_DEBUG_GOROUTINES") != "" {
-			fmt.Fprintf(os.Stderr, "%s\n", buf)
-		}
-		return verifkit.Failf("hang", "the scenario did not finish within %v of real time (virtual time cannot advance while a goroutine waits for a lock); goroutines waiting for locks:\n%s", budget, strings.Join(stuck, "\n\n"))
+		return string(buf), stuck
 	}
+	for i := 0; i < 10; i++ {
+		select {
+		case f := <-done:
+			return f
+		case <-time.After(budget):
+		}
+		all, stuck := lockWaiters()
+		if len(stuck) == 0 {
+			continue
+		}
+		time.Sleep(5 * time.Second)
+		if _, again := lockWaiters(); len(again) > 0 {
+			if os.Getenv("VERIF_DEBUG_GOROUTINES") != "" {
+				fmt.Fprintf(os.Stderr, "%s\n", all)
+			}
+			return verifkit.Failf("hang", "the scenario did not finish within %v of real time (virtual time cannot advance while a goroutine waits for a lock); goroutines of the code under test waiting for locks:\n%s", time.Duration(i+1)*budget, strings.Join(stuck, "\n\n"))
+		}
+	}
+	select {
+	case f := <-done:
+		return f
+	default:
+	}
+	fmt.Fprintf(os.Stderr, "C20-WATCHDOG: scenario still running after %v of real time with no goroutine of the code under test waiting for a lock: given up (inconclusive)\n", 10*budget)
+	os.Exit(3)
+	return nil
 }
 
 func runC20(t *testing.T) func(c c20Case, st *verifkit.Stats) *verifkit.Failure {
